@@ -214,6 +214,8 @@ def sdf_case(res, case, ctx=None):
         elif not np.array_equal(got, exp):
             bad = np.argwhere(got != exp)[0].tolist()
             res.violation(key + '/iopaths', case, f'iopaths()[dataset, line, in_pol, out_pol] = {bad}: got {got[tuple(bad)]} expected {exp[tuple(bad)]} ({int((got != exp).sum())} entries differ)\n{text}')
+        got2 = df.iopaths(c, lib)
+        if not np.array_equal(got, got2): res.violation(key + '/iopaths-second-call', case, 'a second iopaths() call on the same DelayFile returns a different array')
         if exp.any(): res.sig((libname, dname, bf, text))
         if any(b[0] is None for b in blocks):
             goti = df.interconnects(c, lib)
@@ -222,6 +224,7 @@ def sdf_case(res, case, ctx=None):
                 e0 = exps[0]
                 bad = np.argwhere(goti != e0)[0].tolist() if goti.shape == e0.shape else 'shape'
                 res.violation(key + '/interconnects', case, f'interconnects() differs from the expected array at {bad}: got {goti[tuple(bad)] if bad != "shape" else goti.shape} expected {e0[tuple(bad)] if bad != "shape" else e0.shape}\n{text}')
+            if not np.array_equal(df.iopaths(c, lib), got): res.violation(key + '/iopaths-after-interconnects', case, 'iopaths() changes after interconnects() was called')
             if exps[0].any(): res.count('ic_nonzero')
             res.count('ic_cases')
         res.count('cases')
